@@ -719,4 +719,28 @@ Section Top.
     destruct (wfm_window lines tail s' W) as [C [_ [_ R]]].
     split; [|exact R]. unfold caps in C. cbn [In]. intuition.
   Qed.
+  Lemma replay_all_fed : forall (ds : list (bool * L)) p,
+    Forall (fun d => fst d = false) ds ->
+    Model.replay L PS recog bump lineno p ds = Model.fold_recog L PS recog lineno p (map snd ds).
+  Proof.
+    induction ds as [|[d l] t IH]; intros p H; cbn [map snd Model.replay Model.fold_recog]; [reflexivity|].
+    inversion H as [|x y Hd Ht]; subst. cbn [fst] in Hd. subst d.
+    destruct (recog p l); [apply IH; exact Ht|reflexivity].
+  Qed.
+
+  (* no complete line longer than 80 KiB: an Ok result is the fold of the recogniser over all lines *)
+  Lemma ok_is_fold : forall lines t0 sch p s,
+    Forall (fun l => llen l <= HALF_CAP) lines ->
+    drive lines t0 sch = Ret (ROk p, s) ->
+    Model.fold_recog L PS recog lineno init_ps lines = inl p.
+  Proof.
+    intros lines t0 sch p s Hs H.
+    destruct (drive_shape lines t0 sch (ROk p) s H) as [ds [Hd [Hl [Hr [Hp Hn]]]]].
+    rewrite Hn, app_nil_r in Hl. subst p.
+    rewrite <- Hr, Hl. symmetry. apply replay_all_fed.
+    rewrite Hl in Hs. clear - Hd Hs. induction ds as [|[d l] t IH]; [constructor|].
+    inversion Hd as [|x y Hd1 Hd2]; subst. cbn [map snd] in Hs. inversion Hs as [|x y Hs1 Hs2]; subst.
+    constructor; [|apply IH; assumption].
+    unfold dec_ok in Hd1. cbn [fst snd] in *. destruct d; [lia|reflexivity].
+  Qed.
 End Top.
